@@ -382,12 +382,53 @@ def run(ctx, res):
                                 note="the real binary does not run the command sequence the structured semantics prescribe")
             if ix in (3, len(texts) - 1):
                 res.sample({"layer": "L2", "input": texts[ix], "reference": m_sem[ix][:400], "impl": "trace=%r status=%r" % (log, rc)})
+        # ---------------- L2s: fixed scripted texts (do not depend on the random stream); reference = the transcribed
+        # interpreter on the model's parse with the helper oracle (run_lines)
+        scripted = [
+            # a condition that is an and-or list: status of the LAST executed pipeline
+            "if {hp} @x1 a || {hp} @x0 b\n{hp} @x0 then\nelse\n{hp} @x0 else\nfi\nwhile {hp} @x1 w || {seq} kw 0,1\n{hp} @x0 body\ndone\n"
+            "if {hp} @x0 a ; {hp} @x2 b\n{hp} @x0 then2\nelse if {hp} @x3 c && {hp} @x0 d || {hp} @x0 e\n{hp} @x0 elif2\nfi\n",
+            # break / continue in the else arm (and in an arm after else-if) of an if inside a loop
+            "for v in a b c\nif {hp} @x1 c1\n{hp} @x0 t\nelse\nbreak\nfi\n{hp} @x0 after $v\ndone\n"
+            "for v in a b\nif {hp} @x1 c\n{hp} @x0 t\nelse if {hp} @x2 d\n{hp} @x0 u\nelse\ncontinue\nfi\n{hp} @x0 after2 $v\ndone\n"
+            "while {seq} kk 0,0,1\nif {hp} @x1 c\n{hp} @x0 t\nelse\nif {hp} @x0 inner\nbreak\nfi\nfi\n{hp} @x0 after3\ndone\n",
+            # both spellings on every head, else-if included
+            "if {hp} @x1 c; then\n{hp} @x0 a\nelse if {hp} @x0 d; then\n{hp} @x0 b\nelse\n{hp} @x0 e\nfi\n"
+            "for v in x y; do\n{hp} @x0 f $v\ndone\nwhile {seq} k2 0,1; do\n{hp} @x0 w\ndone\n"
+            "if {hp} @x2 c\n{hp} @x0 a\nelse if {hp} @x1 d\n{hp} @x0 b\nelse if {hp} @x0 e; then\n{hp} @x0 cc\nfi\n",
+            # a for list with a word that expands to nothing between others
+            "for x in a $NOPE b\n{hp} @x0 m $x\ndone\nfor y in $NOPE\n{hp} @x0 never\ndone\n{hp} @x0 end\n",
+        ]
+        stexts = [t.replace("{hp}", hp).replace("{seq}", seq) for t in scripted]
+        m_s = C.run_model(ctx.model["C14"], C.write_cases("c14_scripted.txt", [C.case("run", t, WFUEL) for t in stexts]))
+        for ix, t in enumerate(stexts):
+            d = os.path.join(work, "s%d" % ix)
+            os.makedirs(d)
+            rc, log, out, err = run_script(ctx.cicada, t, d)
+            shutil.rmtree(d, ignore_errors=True)
+            exp = expected_of(m_s[ix])
+            if exp is None:
+                # the grammar regenerated from grammar.pest rejects (or the interpreter panics on) a fixed well-formed text
+                res.violate(kind="oracle", layer="L2s", entry="script", input=t, expected="a run of the script (it is well formed)",
+                            observed="model: %s ; binary: trace=%r status=%r stderr=%s" % (m_s[ix][:80], log, rc, err[-200:]),
+                            failing_input=True,
+                            note="a fixed well-formed scripted text is not accepted by the script grammar as it is in the source tree")
+                continue
+            res.nontrivial("l2s:%d" % ix)
+            if (log, rc) != exp:
+                res.violate(kind="oracle", layer="L2s", entry="script", input=t, expected="trace=%r status=%r" % exp,
+                            observed="trace=%r status=%r" % (log, rc), stderr=err[-300:], failing_input=True,
+                            note="a fixed scripted text is not run as the transcribed interpreter / structured semantics prescribe")
+        res.count("L2s_scripted_runs", len(stexts))
         # ---------------- NEG: unbalanced variants
         negs = []
         negs.append("echo start\nif true\necho x\necho after\n")      # the replay of the defect fixed in 44451af: must be diagnosed
         negs.append("echo one\nfi\necho two\n")
         negs.append("%s @x0 start\nif %s @x0 c\n%s @x0 x\n%s @x0 after\n" % (hp, hp, hp, hp))
         negs.append("%s @x0 one\nfi\n%s @x0 two\n" % (hp, hp))
+        negs.append("%s @x0 s\nif %s @x0 c\n%s @x0 x\n" % (hp, hp, hp))                                  # the open if reaches the end of input
+        negs.append("if %s @x1 c; then\n%s @x0 a\nelse\nif %s @x0 d\n%s @x0 b\n" % (hp, hp, hp, hp))     # two trailing fi missing
+        n_fixed_negs = len(negs)
         for t in texts[: (200 if ctx.thorough else 40)]:
             # (a first line keeps an indented keyword off position 0, where pest tests !KW_LIST before the
             # implicit skip and would run the keyword line as a command -- its status is not the oracle's business)
@@ -413,6 +454,8 @@ def run(ctx, res):
             diagnosed = "syntax error" in err and log == []
             nchars = len(t)
             balanced = mp.startswith("OK ") and int(mp.split(" ")[1]) == nchars
+            if ix < n_fixed_negs:
+                balanced = False          # unbalanced by construction: must be diagnosed whatever the regenerated grammar says
             if balanced:                 # still balanced after the mutation: a plain L2 case
                 exp = expected_of(m_negr[ix])
                 ok = exp is not None and (log, rc) == exp
